@@ -283,7 +283,7 @@ class Ctx:
         run = {"label": label, "cmd": res["cmd"], "distinct_states": res["distinct"], "states_generated": res["generated"],
                "actions": res["actions"], "wall_s": res["wall_s"], "mode": "simulate" if simulate else "bfs"}
         if summary is not None:
-            self.absorb(summary, label)
+            self.absorb(summary, label, mode_env(e))
             run["replayed"] = summary["total"]
             run["replay_failed"] = summary["failed"]
             run["distinct_inputs"] = summary["distinct"]
@@ -315,7 +315,7 @@ class Ctx:
         self.absorb(summary, label)
         return summary
 
-    def absorb(self, summary, label):
+    def absorb(self, summary, label, env=None):
         self.evaluations += summary["total"]
         self.traces_ok += summary["ok"]
         kp = os.path.join(self.work, label + ".replay.json.keys")
@@ -336,6 +336,8 @@ class Ctx:
                 self.pid, label, summary["skipped_after_too_many_crashes"], summary.get("worker_restarts", 0)))
         for f in summary["failures"]:
             f["run"] = label
+            if env:
+                f["env"] = env  # the mode switches the case ran under, so that --replay runs it the same way
             self.add_failure(f)
         extra = summary["failed"] - len(summary["failures"])
         if extra > 0:
@@ -616,9 +618,19 @@ class Ctx:
         tmp = os.path.join(self.work, "replay.ndjson")
         with open(tmp, "w") as out:
             out.write(json.dumps(case) + "\n")
-        extra = getattr(self.mod, "replay_env", lambda f: {})(f)
+        extra = dict(f.get("env") or {})
+        extra.update(getattr(self.mod, "replay_env", lambda f, ctx: {})(f, self))
         self.vh_replay_file(fam, tmp, "replay", extra_env=extra)
         return self.finish()
+
+
+INFRA_ENV = {"VERIF_OUT", "VERIF_REPO", "VERIF_SEED", "VERIF_TIER", "VERIF_JOBS", "VERIF_WORK", "VERIF_SLICEC_BIN", "VERIF_FAKEGEN_BIN",
+             "VERIF_FILES_TREE"}
+
+
+def mode_env(e):
+    """The VERIF_* switches that select what a family does with a case (not where things live)."""
+    return {k: v for k, v in e.items() if k.startswith("VERIF_") and k not in INFRA_ENV}
 
 
 def distinct_lines(path):
